@@ -257,16 +257,20 @@ class Interp:
         return self.call(fn, args, kwargs, n)
 
     def e_ListComp(self, n, fr):
+        ok, r = self._comp_hook(n, fr)
+        if ok:
+            return r
         # [bytes(c) for c in <list of byte strings of symbolic length>]: an element-wise copy.  The result has the same
         # length and element lengths; element CONTENTS are left unconstrained (over-approximation) and the source is
         # remembered in .snapshot_of
-        if len(n.generators) == 1 and not n.generators[0].ifs and isinstance(n.generators[0].target, ast.Name) \
+        if self._comp_first is not None and not n.generators[0].ifs and isinstance(n.generators[0].target, ast.Name) \
                 and isinstance(n.elt, ast.Call) and isinstance(n.elt.func, ast.Name) and n.elt.func.id in ('bytes', 'bytearray') \
                 and len(n.elt.args) == 1 and isinstance(n.elt.args[0], ast.Name) and n.elt.args[0].id == n.generators[0].target.id \
                 and not n.elt.keywords:
             from .symseq import BufSeq
-            src = self.eval(n.generators[0].iter, fr)
+            src = self._comp_first[1]
             if isinstance(src, BufSeq) and not isinstance(simp(zint(src.n)), int):
+                self._comp_first = None
                 r = BufSeq(self.run, src.n, self.run.fresh_row(src.label + '_copy_cells'), z3.K(INT, z3.IntVal(0)), src.lens,
                            n.elt.func.id, False, src.label + '_copy')
                 r.snapshot_of = src
@@ -277,10 +281,12 @@ class Interp:
 
     def _comp_hook(self, n, fr):
         """a comprehension whose (single) iterable is an abstract collection: the collection's comp_ hook builds the abstract result"""
+        self._comp_first = None
         if len(n.generators) == 1:
             src = self.eval(n.generators[0].iter, fr)
             if hasattr(src, 'comp_'):
                 return True, src.comp_(self, n, fr)
+            self._comp_first = (n, src)          # evaluated once: _comp reuses it
         return False, None
 
     def e_SetComp(self, n, fr):
@@ -315,7 +321,13 @@ class Interp:
             emit(fr)
             return
         g = gens[i]
-        for x in self.iterate(self.eval(g.iter, fr), node):
+        pre = getattr(self, '_comp_first', None)
+        if i == 0 and pre is not None and pre[0] is node:
+            src = pre[1]
+            self._comp_first = None
+        else:
+            src = self.eval(g.iter, fr)
+        for x in self.iterate(src, node):
             self.assign_target(g.target, x, fr)
             ok = True
             for c in g.ifs:
@@ -1232,6 +1244,18 @@ class Interp:
         targets = assigned_names(s.body)
         if is_for:
             targets |= assigned_names([ast.Assign(targets=[s.target], value=ast.Constant(value=None))])
+        # soundness guard: a python container mutated in the body through a method / subscript (not an assignment) must be
+        # abstracted by the loop specification (custom havoc), otherwise the exit path would see its value at loop entry
+        custom = getattr(spec, '_havoc', None) or {}
+        for nd in [x for st in s.body for x in ast.walk(st)]:
+            nm = None
+            if isinstance(nd, ast.Call) and isinstance(nd.func, ast.Attribute) and isinstance(nd.func.value, ast.Name) \
+                    and nd.func.attr in _MUTATORS:
+                nm = nd.func.value.id
+            elif isinstance(nd, ast.Subscript) and isinstance(nd.ctx, (ast.Store, ast.Del)) and isinstance(nd.value, ast.Name):
+                nm = nd.value.id
+            if nm is not None and nm in env and isinstance(env[nm], (list, dict, set, bytearray)) and nm not in custom:
+                raise Unsupported(f'loop at L{s.lineno} mutates the container {nm!r} but its specification has no abstraction (havoc) for it')
         which = run.choose([('body', True), ('exit', True)], f'loop{getattr(s, "_ordinal", "")}')
         spec.havoc(self, env, g, targets)
         if is_for:
@@ -1501,6 +1525,10 @@ def _in_repo_class(t):
     m = sys.modules.get(getattr(t, '__module__', ''), None)
     f = getattr(m, '__file__', '') or ''
     return f.startswith(REPO_SRC)
+
+
+_MUTATORS = {'append', 'extend', 'add', 'update', 'pop', 'remove', 'clear', 'insert', 'setdefault', 'discard', 'popitem', 'sort',
+             'reverse'}
 
 
 def assigned_names(stmts):
